@@ -138,7 +138,9 @@ pub fn profiles_close(a: &Profile, b: &Profile, ulps: f64) -> Result<(), String>
         for (name, va) in a[p].iter() {
             let vb = b[p].get(name).ok_or_else(|| format!("infoset {} missing", name))?;
             for (x, y) in va.iter().zip(vb.iter()) {
-                if !ulp_close(*x, *y, ulps) {
+                // normalising n probabilities moves each by up to about n/2 ulp (their sum is off
+                // one by that much), so "rounding in the last place" grows with the arity
+                if !ulp_close(*x, *y, ulps + va.len() as f64) {
                     return Err(format!("infoset {:?} of player {}: {:?} vs {:?}", name, p + 1, va, vb));
                 }
             }
